@@ -18,6 +18,7 @@ mod fam_outline;
 mod fam_norm;
 mod zoo;
 mod fam_trace;
+mod fam_frame;
 mod fam_report;
 
 use std::{collections::BTreeMap, collections::HashSet, fs, io::Write as _, path::Path};
@@ -41,6 +42,7 @@ fn families() -> Vec<(&'static str, fn(&mut Rng, usize) -> Case)> {
         ("zoo.reg", zoo::gen_reg),
         ("zoo.dispatch", zoo::gen_dispatch),
         ("trace.run", fam_trace::gen_trace),
+        ("trace.frame", fam_frame::gen_frame),
         ("report.run", fam_report::gen_report),
     ]
 }
